@@ -46,6 +46,7 @@ void stamp_inv( uint64_t* slot ) noexcept;
 // reused): from now on every instrumented access (atomic operation, lock) inside the block is a violation 'use-after-free'.
 // The list is cleared when the next execution starts. 'what' must be a string literal.
 void region_freed( const void* p, size_t n, const char* what ) noexcept;
+void regions_reset() noexcept;      // the harness is about to release the quarantined blocks (a new sequence starts inside one execution)
 // seqmc helpers: a description of what the harness is doing (appended to the message of any violation raised meanwhile), and a budget
 // of instrumented steps after which the execution is a violation 'no-progress' (0 = no budget). Both are reset at every execution.
 void set_context( const char* what ) noexcept;
